@@ -328,16 +328,19 @@ GLUE_ASSUME = COMMON_ASSUME + [
 PROPS["C03"] = dict(
     level="model_checking",
     technique="bounded symbolic execution of go/ssa (gosmt): the real RaftGroup.run select loop is fed every Ready shape in the bound by a harness raft node; the recorded event trace is checked for every crash instant (= every trace prefix); Ready shapes are path decisions (no solver variables: verdict by exhaustive path enumeration)",
-    explanation="reduced claim (DESIGN.md section 5 C03): nothing is applied (hence acknowledged) before the Ready's hard state, entries and received snapshot were handed to the WAL; a received snapshot is applied before the committed entries; every committed entry is applied once, in order; a local snapshot is labelled with the index of the last applied entry and its data is produced right before; a stored snapshot is restored by Start before any Ready is consumed. What the WAL then answers after a crash/reopen is C06; what etcd/raft re-delivers after restart and Badger's durability are trusted",
+    explanation="(1) end to end on one node: a real partition with its real ready loop and Badger-backed WAL takes acknowledged writes, optionally compacts into a local snapshot, crashes before/after any durable write (the flushing goroutine blocks forever), and a second instance on the same database must recover exactly the acknowledged history, optionally plus the in-flight write (harness raft node re-delivers the stored log). (2) glue obligations: nothing is applied (hence acknowledged) before the Ready's hard state, entries and received snapshot were handed to the WAL; a received snapshot is applied before the committed entries; every committed entry is applied once, in order; a local snapshot is labelled with the index of the last applied entry and its data is produced right before; a stored snapshot is restored by Start before any Ready is consumed. What the WAL then answers after a crash/reopen is C06; what etcd/raft re-delivers after restart and Badger's durability are trusted",
     runs={
         "quick": [
             dict(pkg="./storage/raft", entry="VerifC03", bounds="readys=1,maxmessages=0", reach=["readys-handled", "local-snapshot-taken", "end"]),
             dict(pkg="./storage/raft", entry="VerifC03", bounds="readys=2,maxmessages=1,msgtypes=1,destinations=1,maxcommitted=1,maxentries=0,snapshots=0,zerogroup=1,storedsnap=0,peerfails=0", reach=["readys-handled", "local-snapshot-taken", "end"]),
+            dict(pkg="./storage", entry="VerifC03Crash", bounds="ops=2", no_native=True, reach=["restarted", "end"]),
         ],
         "thorough": [
             dict(pkg="./storage/raft", entry="VerifC03", bounds="readys=1,maxmessages=1,msgtypes=2", reach=["readys-handled", "end"]),
             dict(pkg="./storage/raft", entry="VerifC03", bounds="readys=2,maxmessages=0,maxcommitted=2,maxentries=1,zerogroup=1,peerfails=0", max_seconds=3000, reach=["readys-handled", "end"]),
             dict(pkg="./storage/raft", entry="VerifC03", bounds="readys=1,maxmessages=0,det=0,preempt=1,zerogroup=1,storedsnap=0,peerfails=0", max_seconds=3000, reach=["readys-handled", "end"]),
+            dict(pkg="./storage", entry="VerifC03Crash", bounds="ops=3", no_native=True, reach=["restarted", "end"]),
+            dict(pkg="./storage", entry="VerifC03Crash", bounds="ops=3,cfg=1,ids=3,snapshots=0", no_native=True, reach=["restarted", "end"]),
         ],
     },
     outside="the end-to-end statement (acknowledged writes present after a crash at any instant and restart, minority crashes): it needs etcd/raft's replay and Badger's durability, which are not encoded; more than 2 Readys; crash instants inside a WAL call",
